@@ -57,7 +57,7 @@ finally:
 # now the check on /repo itself
 rc, out = sh(['git', '-C', '/repo', 'apply', os.path.join(seed, 'patch.diff')])
 try:
-    r = subprocess.run(['/verif/bin/govc', 'check', '-p', prop, '-noevidence'], env=env, capture_output=True, text=True)
+    r = subprocess.run(['/verif/tools/check.sh', prop, 'quick'], env=dict(env, VERIF_NOEVIDENCE='1'), capture_output=True, text=True)
     res['check_exit'] = r.returncode
     res['check_failed'] = [l for l in r.stdout.splitlines() if l.startswith('FAILED')][:6]
     res['check_violations'] = [l for l in r.stdout.splitlines() if l.startswith('VIOLATION')][:6]
